@@ -5,6 +5,8 @@ pub mod c27;
 pub mod c28;
 pub mod c29;
 pub mod c41;
+pub mod c42;
+pub mod c43;
 pub mod wire;
 
 use crate::core::CheckDef;
@@ -20,8 +22,10 @@ pub fn lookup(id: &str) -> Option<CheckDef> {
         "C28" => c28::def(),
         "C29" => c29::def(),
         "C41" => c41::def(),
+        "C42" => c42::def(),
+        "C43" => c43::def(),
         _ => return None,
     })
 }
 
-pub const ALL: &[&str] = &["C20", "C21", "C22", "C24", "C25", "C27", "C28", "C29", "C41"];
+pub const ALL: &[&str] = &["C20", "C21", "C22", "C24", "C25", "C27", "C28", "C29", "C41", "C42", "C43"];
